@@ -243,7 +243,7 @@ def run_batches(ctx, batches, timeout, parallel):
         yield label, reports, err
 
 
-def run(ctx):
+def _run(ctx):
     ctx.level = "other"
     ctx.explanation = (
         "Every pooled task (python: ints, containers incl. a frozenset, file input, file output, a class that must be "
@@ -331,7 +331,7 @@ def run(ctx):
         shutil.rmtree(base, ignore_errors=True)
 
 
-def replay(rec):
+def _replay(rec):
     case = rec["case"]
     base = Path(os.path.realpath(tempfile.mkdtemp(prefix="vf_c29_")))
     try:
@@ -353,3 +353,13 @@ def replay(rec):
         print(f"VIOLATION property=C29 replay={rec.get('_path', '')}")
         return 1
     return 0
+
+
+def run(ctx):
+    with T.private_hash_cache():
+        _run(ctx)
+
+
+def replay(rec):
+    with T.private_hash_cache():
+        return _replay(rec)
